@@ -50,12 +50,12 @@ func (s ecSigner) Sign(r io.Reader, digest []byte, opts crypto.SignerOpts) ([]by
 func (s ecSigner) Algorithm() jwa.KeyAlgorithm { return jwa.ES256 }
 
 type keyPair struct {
-	kind    string // EdDSA | ES512 | PS512 | ES256
-	id      string
-	priv    signature.Key
-	pub     any // jwk.Set or crypto.Signer
-	signer  *ecSigner
-	pubKey  jwk.Key
+	kind   string // EdDSA | ES512 | PS512 | ES256
+	id     string
+	priv   signature.Key
+	pub    any // jwk.Set or crypto.Signer
+	signer *ecSigner
+	pubKey jwk.Key
 }
 
 type keyRing struct {
